@@ -15,13 +15,22 @@ rc, out = vlib.coq_make(["all"], timeout=3000)
 print(out[-3000:])
 if rc != 0:
     print("setup: coq build failed (checks will report it)")
-for d in sorted(glob.glob(os.path.join(vlib.VERIF, "ocaml", "c*"))):
-    pid = os.path.basename(d).upper()
-    if os.path.exists(os.path.join(vlib.COQ, "extract", pid + ".v")):
+for f in sorted(glob.glob(os.path.join(vlib.COQ, "extract", "*.v"))):
+    pid = os.path.basename(f)[:-2]
+    if os.path.exists(os.path.join(vlib.VERIF, "ocaml", pid.lower(), "driver.ml")):
         print("ocaml", pid, vlib.ocaml_driver(pid))
-for ws in sorted(os.listdir(os.path.join(vlib.VERIF, "harness"))):
-    if os.path.exists(os.path.join(vlib.VERIF, "harness", ws, "Cargo.toml")):
-        ok, out, _ = vlib.cargo_build(ws)
-        print("cargo", ws, ok, out[-600:] if not ok else "")
+# harness workspaces, each with the target directory its checks use
+for ws in ("g3", "g2"):
+    ok, out, _ = vlib.cargo_build(ws)
+    print("cargo", ws, ok, out[-800:] if not ok else "")
+ok, out, _ = vlib.g1_build(None)
+print("cargo g1 (instrumented drop-in)", ok, out[-800:] if not ok else "")
+for ws in ("xlate", "xlate-shm", "xlate-own"):
+    wd = os.path.join(vlib.VERIF, "harness", ws)
+    if not os.path.exists(os.path.join(wd, "Cargo.lock")):
+        vlib.sh("cp %s/Cargo.lock %s/Cargo.lock" % (vlib.REPO, wd))
+    rc, out = vlib.sh("cargo build --offline -j%d" % vlib.NPROC, cwd=wd, timeout=3000,
+                      env={"CARGO_TARGET_DIR": os.path.join(vlib.BUILD, "target-xlate")})
+    print("cargo", ws, rc == 0, out[-800:] if rc != 0 else "")
 PY
 exit 0
